@@ -1,7 +1,53 @@
-(* Entry point of the extracted model for property C12: run_C12 case = observation. *)
+(* Entry point of the extracted model for property C12: run_C12 case = observation.
+   cases: (1 bytes)                                    parsePESData
+          (2 header payloadSize)                       writePESHeader             -> (bytes n)
+          (3 header payloadLeft isStart bytesAvail)    writePESData               -> (bytes total payload)
+          (4 (optional header)?)                       writePESOptionalHeader     -> (bytes n)
+          (5 clockref)                                 ClockReference.Duration    -> ns
+          (6 bytes)                                    parsePTSOrDTS
+          (7 flag (clockref)?)                         writePTSOrDTS              -> (bytes n)
+          (8 bytes)                                    parseESCR
+          (9 (clockref)?)                              writeESCR                  -> (bytes n)
+          (10 byte)                                    parseDSMTrickMode
+          (11 (trick mode)?)                           writeDSMTrickMode          -> (bytes n)
+          (12 (optional header)?)                      calcPESOptionalHeaderLength
+          (13 header payload)                          writePESHeader, then parsePESData on header ++ payload *)
 From Coq Require Import ZArith List.
-Require Import Base.Tok Base.Iter Extract.RunBase.
+Require Import Base.Tok Base.Bits Base.Iter Base.Wr Gen.Consts Gen.Types Gen.Preds Model.Clock Model.Pes Extract.RunBase.
 Import ListNotations.
 Open Scope Z_scope.
 
-Definition run_C12 (t : tok) : tok := TL [].
+Definition tok_items_n (p : list witem * Z) : tok := TL [TB (bytes_of_items (fst p)); TI (snd p)].
+
+Definition run_C12 (t : tok) : tok :=
+  match tI (tnth 0 t) with
+  | 1 => tok_of_res tok_of_PESData (parse_pes_data_bytes (tB (tnth 1 t)))
+  | 2 => tok_of_res tok_items_n (enc_pes_header (PESHeader_of_tok (tnth 1 t)) (tI (tnth 2 t)))
+  | 3 => tok_of_res (fun r => match r with (its, tot, pl) => TL [TB (bytes_of_items its); TI tot; TI pl] end)
+           (write_pes_data (PESHeader_of_tok (tnth 1 t)) (tB (tnth 2 t)) (tbool (tnth 3 t)) (tI (tnth 4 t)))
+  | 4 => tok_of_res tok_items_n
+           (match to_opt PESOptionalHeader_of_tok (tnth 1 t) with
+            | None => Ok ([], 0)
+            | Some h => enc_pes_optional_header h
+            end)
+  | 5 => TI (cr_duration (ClockReference_of_tok (tnth 1 t)))
+  | 6 => tok_of_res tok_of_ClockReference (run_iter parse_pts_or_dts (tB (tnth 1 t)))
+  | 7 => tok_of_res tok_items_n
+           (res_map (fun c => (enc_pts_or_dts (tI (tnth 1 t)) c, C_ptsOrDTSByteLength))
+                    (pneed (to_opt ClockReference_of_tok (tnth 2 t))))
+  | 8 => tok_of_res tok_of_ClockReference (run_iter parse_escr (tB (tnth 1 t)))
+  | 9 => tok_of_res tok_items_n
+           (res_map (fun c => (enc_escr c, C_escrLength)) (pneed (to_opt ClockReference_of_tok (tnth 1 t))))
+  | 10 => tok_of_DSMTrickMode (parse_dsm_trick_mode (tI (tnth 1 t)))
+  | 11 => tok_of_res tok_items_n
+           (res_map (fun m => (enc_dsm_trick_mode m, C_dsmTrickModeLength)) (pneed (to_opt DSMTrickMode_of_tok (tnth 1 t))))
+  | 12 => TI (calcPESOptionalHeaderLength (to_opt PESOptionalHeader_of_tok (tnth 1 t)))
+  | 13 => match enc_pes_header (PESHeader_of_tok (tnth 1 t)) (Z.of_nat (length (tB (tnth 2 t)))) with
+          | Ok (its, n) =>
+              TL [TI 0; TB (bytes_of_items its); TI n;
+                  tok_of_res tok_of_PESData (parse_pes_data_bytes (bytes_of_items its ++ tB (tnth 2 t)))]
+          | Err c => TL [TI 1; TI c]
+          | Panic => TL [TI 2]
+          end
+  | _ => TL []
+  end.
